@@ -137,7 +137,8 @@ Fixpoint dec_row_list (n : nat) (bs : bytes) : option (list raw_row * bytes) :=
               end
             end
   end.
-Definition dec_chan (bs : bytes) : option (raw_chan * bytes) :=
+(* the header of a channel section: everything up to (and including) the declared message count *)
+Definition dec_chan_header (bs : bytes) : option (raw_chan * bytes) :=
   match get_field maxMessageBackupStreamFieldBytes bs with
   | None => None
   | Some (key, r1) =>
@@ -158,16 +159,23 @@ Definition dec_chan (bs : bytes) : option (raw_chan * bytes) :=
             | Some (sys, r6) =>
               match get_uvarint r6 with
               | None => None
-              | Some (cnt, r7) =>
-                match dec_row_list (bounded cnt r7) r7 with
-                | None => None
-                | Some (rows, r8) => Some (RC key id ty ck sys cnt rows, r8)
-                end
+              | Some (cnt, r7) => Some (RC key id ty ck sys cnt [], r7)
               end
             end
           end
         end
       end
+    end
+  end.
+Definition with_rows (h : raw_chan) (rows : list raw_row) : raw_chan :=
+  RC (rc_key h) (rc_id h) (rc_type h) (rc_ckpt h) (rc_sys h) (rc_count h) rows.
+Definition dec_chan (bs : bytes) : option (raw_chan * bytes) :=
+  match dec_chan_header bs with
+  | None => None
+  | Some (h, r7) =>
+    match dec_row_list (bounded (rc_count h) r7) r7 with
+    | None => None
+    | Some (rows, r8) => Some (with_rows h rows, r8)
     end
   end.
 Fixpoint dec_chan_list (n : nat) (bs : bytes) : option (list raw_chan * bytes) :=
